@@ -18,6 +18,7 @@ type Event struct {
 	Path2 []string `json:"path2,omitempty"`
 	Names []string `json:"names,omitempty"`
 	Res   string   `json:"res,omitempty"`
+	G     int64    `json:"g"`
 }
 
 // Auto is a permissive self-answering controller: every call succeeds (new
@@ -65,7 +66,7 @@ func (a *Auto) paths(c *Call) ([]string, []string) {
 func (a *Auto) logEv(ev string, c *Call, res string) {
 	p, p2 := a.paths(c)
 	a.seq++
-	a.Log = append(a.Log, Event{Seq: a.seq, Ev: ev, Call: c.Seq, K: c.K, F: c.F, F2: c.F2, Path: p, Path2: p2, Names: c.Names, Res: res})
+	a.Log = append(a.Log, Event{Seq: a.seq, Ev: ev, Call: c.Seq, K: c.K, F: c.F, F2: c.F2, Path: p, Path2: p2, Names: c.Names, Res: res, G: c.G})
 }
 
 // ModeForName is the file type the permissive backend gives a name.
